@@ -3,11 +3,13 @@
 package proxy
 
 import (
+	"time"
 	"context"
 	"io"
 	"sync"
 
 	"go.temporal.io/server/api/adminservice/v1"
+	replicationv1 "go.temporal.io/server/api/replication/v1"
 	"google.golang.org/grpc"
 	"google.golang.org/grpc/codes"
 	"google.golang.org/grpc/metadata"
@@ -35,6 +37,8 @@ type vfServerStream struct {
 	sendErr error
 	onSend  func(*vfResp)
 	block   chan struct{} // when non-nil Send blocks until it is closed
+	delay   time.Duration // a slow reader: every Send takes this long
+	autoAck bool          // a Temporal-like receiver: acknowledges the watermark of everything it is sent
 }
 
 func newVfServerStream(md metadata.MD) *vfServerStream {
@@ -66,6 +70,23 @@ func (s *vfServerStream) Send(m *vfResp) error {
 	}
 	if err != nil {
 		return err
+	}
+	s.mu.Lock()
+	d, aa := s.delay, s.autoAck
+	s.mu.Unlock()
+	if d > 0 {
+		select {
+		case <-time.After(d):
+		case <-s.ctx.Done():
+			return status.Error(codes.Canceled, "context canceled")
+		}
+	}
+	if aa && m.GetMessages() != nil {
+		select {
+		case s.recv <- vfItem[vfReq]{val: &vfReq{Attributes: &adminservice.StreamWorkflowReplicationMessagesRequest_SyncReplicationState{
+			SyncReplicationState: &replicationv1.SyncReplicationState{InclusiveLowWatermark: m.GetMessages().ExclusiveHighWatermark}}}}:
+		default:
+		}
 	}
 	s.mu.Lock()
 	s.sent = append(s.sent, m)
